@@ -1,6 +1,7 @@
 (* C07 — output is closed under references for every selection of operations; default scoping is minimal. *)
 From Coq Require Import Relations List Bool NArith.
-From OAS Require Import Model.Boxing Proof.Boxing.
+From Coq Require Import String.
+From OAS Require Import Model.Boxing Proof.Boxing Model.Dedup Proof.Dedup Gen.Dedup.
 Import ListNotations.
 
 (* closure: whatever the selection, an emitted schema type (a member of the expanded set) only mentions schema
@@ -29,6 +30,25 @@ Proof. intros ss ops ops' H. apply reach_monotone; [exact H | apply reach_always
 Theorem C07_fuel_suffices : forall ss ops, snd (reach ss ops) = true.
 Proof. exact reach_always_closed. Qed.
 
+(* ---- the post-pass that merges response enums with equal signatures (Model/Dedup.v) keeps the output closed:
+   removing the dropped items by index, distinct indices highest first, removes exactly the items at those indices and
+   keeps all others in order — whatever the order in which the groups listed them *)
+Theorem C07_dedup_removes_exactly : forall (A : Type) (idxs : list nat) (l : list A), dedup_remove idxs l = keep_unlisted idxs l.
+Proof. exact @dedup_remove_exact. Qed.
+
+(* the canonical member of a group is a member, is not dropped, and no dropped member carries its name: every
+   reference rewritten to the canonical name still has an emitted definition *)
+Theorem C07_dedup_canonical_kept : forall g c, canonical g = Some c ->
+  In c g /\ ~ In c (doomed g) /\ (forall x, In x (doomed g) -> In x g /\ snd x <> snd c).
+Proof. exact doomed_spec. Qed.
+
+(* removing by index in an order that is not descending does NOT have that meaning (the seeded change C07-6) *)
+Theorem C07_dedup_unordered_removal_refuted : exists (idxs : list nat) (l : list N), remove_all idxs l <> keep_unlisted idxs l.
+Proof. exists [1; 3]%nat, [10; 11; 12; 13; 14]%N. vm_compute. discriminate. Qed.
+
+Check C07_dedup_removes_exactly : forall (A : Type) (idxs : list nat) (l : list A), dedup_remove idxs l = keep_unlisted idxs l.
+Check C07_dedup_canonical_kept : forall g c, canonical g = Some c ->
+  In c g /\ ~ In c (doomed g) /\ (forall x, In x (doomed g) -> In x g /\ snd x <> snd c).
 Check C07_closed : forall (ss : list sch) (ops : list op) (mentions : N -> N -> Prop),
   (forall a b, mentions a b -> clos_refl_trans N (edge (deps ss)) a b) ->
   forall a b, In a (fst (reach ss ops)) -> mentions a b -> In b (fst (reach ss ops)).
@@ -46,6 +66,27 @@ Example C07_nonvacuous :
   /\ reach [Holder; Plain; Plain; Plain] [[SRef 0]; [SObj [] [] [] [] (Some (SRef 1)) None false]] = ([0; 1; 2]%N, true).
 Proof. vm_compute. split; reflexivity. Qed.
 
+(* tie of Model/Dedup.v to the source (Gen/Dedup.v is regenerated from postprocess/response_enum.rs on every run and
+   fails closed): the indices are a set walked highest first, the canonical member is the minimum by (name length,
+   name), groups of one are left alone — which is what dedup_remove / better / doomed compute *)
+Example C07_dedup_shape_from_source :
+  dedup_removal_order = "distinct indices, highest first"%string
+  /\ dedup_canonical_order = ["name length"; "name"]%string
+  /\ dedup_signature_parts = ["status_code"; "variant_name"; "sorted (category, schema type text)"]%string
+  /\ dedup_min_group = 2
+  /\ doomed [(0, "A"%string)] = [] /\ better (0, "Zz"%string) (1, "Aaa"%string) = true /\ better (0, "Ab"%string) (1, "Aa"%string) = false.
+Proof. vm_compute. repeat split; reflexivity. Qed.
+
+(* non-vacuity of the de-duplication theorems: two groups listed low-index group last *)
+Example C07_dedup_nonvacuous :
+  dedup_remove [4; 1; 4]%nat [10; 11; 12; 13; 14]%N = [10; 12; 13]%N
+  /\ canonical [(2, "PeekQueueResponse"); (5, "PeekTailResponse"); (7, "PeekResponse")]%nat%string = Some (7, "PeekResponse"%string)
+  /\ doomed [(2, "PeekQueueResponse"); (5, "PeekTailResponse"); (7, "PeekResponse")]%nat%string = [(2, "PeekQueueResponse"); (5, "PeekTailResponse")]%nat%string.
+Proof. vm_compute. repeat split; reflexivity. Qed.
+
+Print Assumptions C07_dedup_removes_exactly.
+Print Assumptions C07_dedup_canonical_kept.
+Print Assumptions C07_dedup_unordered_removal_refuted.
 Print Assumptions C07_closed.
 Print Assumptions C07_operation_refs.
 Print Assumptions C07_minimal.
